@@ -59,6 +59,23 @@ MagMulFrom(a, b, j) ==      \* sum over limbs of b, shifted
     ELSE MagAdd([i \in 1..(j - 1) |-> 0] \o MagMulSmall(a, b[j]), MagMulFrom(a, b, j + 1))
 MagMul(a, b) == Strip(MagMulFrom(a, b, 1))
 
+\* long division of magnitudes (b non-empty): limbs of a from the most significant down, each
+\* quotient limb found by bisection (largest d with b*d <= running remainder)
+RECURSIVE DigitSearch(_, _, _, _)
+DigitSearch(r, b, lo, hi) ==
+    IF lo = hi THEN lo
+    ELSE LET mid == (lo + hi + 1) \div 2 IN
+         IF MagCmp(MagMulSmall(b, mid), r) <= 0 THEN DigitSearch(r, b, mid, hi)
+         ELSE DigitSearch(r, b, lo, mid - 1)
+RECURSIVE MagDivFrom(_, _, _, _)
+MagDivFrom(a, b, i, r) ==
+    IF i = 0 THEN [q |-> << >>, r |-> r]
+    ELSE LET r1 == Strip(<< a[i] >> \o r)
+             d == DigitSearch(r1, b, 0, BASE - 1)
+             rest == MagDivFrom(a, b, i - 1, MagSub(r1, MagMulSmall(b, d)))
+         IN [q |-> rest.q \o << d >>, r |-> rest.r]
+MagDivMod(a, b) == LET x == MagDivFrom(a, b, Len(a), << >>) IN [q |-> Strip(x.q), r |-> x.r]
+
 \* signed -------------------------------------------------------------------
 BigNeg(x) == [s |-> -x.s, m |-> x.m]
 BigAdd(x, y) ==
@@ -80,6 +97,18 @@ IsDivMod(a, b, q, r) ==
     /\ BigEq(BigAdd(BigMul(q, b), r), a)
     /\ IF b.s > 0 THEN r.s >= 0 /\ BigCmp(r, b) < 0
        ELSE r.s <= 0 /\ BigCmp(r, b) > 0
+
+\* Python's floor division and remainder, COMPUTED (b # 0); BigDivLaw ties them to the relation
+BigDivMod(a, b) ==
+    LET x == MagDivMod(a.m, b.m) IN
+    IF a.s = 0 THEN [q |-> BZero, r |-> BZero]
+    ELSE IF a.s = b.s THEN [q |-> Big(1, x.q), r |-> Big(b.s, x.r)]
+    ELSE IF Len(x.r) = 0 THEN [q |-> Big(-1, x.q), r |-> BZero]
+    ELSE [q |-> Big(-1, MagAdd(x.q, << 1 >>)), r |-> Big(b.s, MagSub(b.m, x.r))]
+BigDivLaw(S) == \A a, b \in S : b.s # 0 => LET x == BigDivMod(a, b) IN
+                    WellFormed(x.q) /\ WellFormed(x.r) /\ IsDivMod(a, b, x.q, x.r)
+RECURSIVE BigPow(_, _)
+BigPow(x, n) == IF n = 0 THEN FromInt(1) ELSE BigMul(x, BigPow(x, n - 1))
 
 \* sanity laws (checked by TLC on a box in C02_Big)
 LawsOn(S) ==
